@@ -20,6 +20,8 @@ type c19Case struct {
 	Hex  string `json:"hex,omitempty"`
 	Msg  string `json:"msg,omitempty"`
 	Note string `json:"note,omitempty"`
+	// kind "conc": a concurrent scenario (run in a child process)
+	Input *c19ConcInput `json:"input,omitempty"`
 }
 
 func c19Varint(v uint64) []byte {
@@ -290,13 +292,19 @@ func runC19(r *Run) {
 			runStr(string(decUnhex(c.Hex)), "fixed")
 		case "prep", "sign":
 			c19RunMsg(r, c)
+		case "conc":
+			if c.Input != nil {
+				if cls := c19RunConc(r, *c.Input, "fixed"); cls != nil {
+					c19EmitConc(r, *c.Input, cls)
+				}
+			}
 		}
 	}
 	if r.ReplayFile != "" {
 		return
 	}
 
-	for c := 0; c < r.N; c++ {
+	for c := 0; c < r.N && len(r.Violations) < 20 && !decStalled(); c++ {
 		switch c % 4 {
 		case 0:
 			b, kind := c19GenTicketBytes(r, capped)
@@ -306,6 +314,20 @@ func runC19(r *Run) {
 			runStr(s, kind)
 		default:
 			c19GenMsg(r)
+		}
+	}
+
+	// concurrent scenarios (each in a child process), after the sequential
+	// cases so that a defect visible sequentially gets the small replay: the
+	// two handler goroutines of a daemon parse prepare messages at the same time
+	nConc := 2
+	if r.Tier == "thorough" {
+		nConc = 5
+	}
+	for k := 0; k < nConc && len(r.Violations) < 20; k++ {
+		in := c19GenConc(r)
+		if cls := c19RunConc(r, in, "generated"); cls != nil {
+			c19EmitConc(r, in, cls)
 		}
 	}
 }
